@@ -12,21 +12,25 @@ const (
 )
 
 var rgenNotClaimed = map[string]string{
-	"(*font/cff.cffParser).parseCharset":                    rgCursor,
-	"(*font/cff.cffParser).parseFDSelect":                   rgCursor + " (seek tests the offset)",
-	"(*font/cff.cffParser).parseIndex":                      rgCursor,
-	"(*font/cff.cffParser).parseIndexHeader":                rgCursor,
-	"(*font/cff.cffParser).read":                            rgCursor,
-	"(*font/cff/interpreter.Machine).Run":                   rgCursor,
-	"(*font/cff/interpreter.Machine).SkipBytes":             "reviewed: the count is (hstem+vstem+7)>>3 of int32 counters that only grow; a negative count needs 2^31 stem operators",
-	"(*font/cff/interpreter.Machine).parseNumber":           rgCursor + " (Run calls it with a non-empty instruction slice)",
-	"(*font/opentype.Loader).findTableBuffer":               "known finding R-ALLOC (the table length is not compared with the file size); the slice expression reuses the caller's buffer",
-	"(*font/opentype/tables.AATStateTable).parseEntries":    rgSibling + " (parseStates tests entryTable)",
-	"(*font/opentype/tables.AATStateTable).parseStates":     rgNonLinear,
-	"(*font/opentype/tables.AATStateTableExt).parseEntries": rgSibling + " (parseStates tests entryTable)",
-	"(*font/opentype/tables.AATStateTableExt).parseStates":  rgNonLinear + " (rows of nClasses entries cut from len(states)/nClasses rows)",
-	"(*font/opentype/tables.Gvar).parseGlyphVariationDatas": rgSibling + " (the offsets come from ParseLoca(glyphCount): glyphCount+1 entries)",
-	"(*font/opentype/tables.Strike).parseGlyphDatas":        rgSibling + " (the offsets come from ParseLoca(numGlyphs): numGlyphs+1 entries)",
+	"(*font/cff.cffParser).parseCharset":                           rgCursor,
+	"(*font/cff.cffParser).parseFDSelect":                          rgCursor + " (seek tests the offset)",
+	"(*font/cff.cffParser).parseIndex":                             rgCursor,
+	"(*font/cff.cffParser).parseIndexHeader":                       rgCursor,
+	"(*font/cff.cffParser).read":                                   rgCursor,
+	"(*font/cff/interpreter.Machine).Run":                          rgCursor,
+	"(*font/cff/interpreter.Machine).SkipBytes":                    "reviewed: the count is (hstem+vstem+7)>>3 of int32 counters that only grow; a negative count needs 2^31 stem operators",
+	"(*font/cff/interpreter.Machine).parseNumber":                  rgCursor + " (Run calls it with a non-empty instruction slice)",
+	"(*font/opentype.Loader).findTableBuffer":                      "reviewed: the slice expression reuses the caller's buffer up to the table length, which is compared with the file size since c1de89c (through Seek, outside P-LIN)",
+	"(*font/opentype/tables.AATStateTable).parseEntries":           rgSibling + " (parseStates tests entryTable)",
+	"(*font/opentype/tables.AATStateTable).parseStates":            rgNonLinear,
+	"(*font/opentype/tables.AATStateTableExt).parseEntries":        rgSibling + " (parseStates tests entryTable)",
+	"(*font/opentype/tables.AATStateTableExt).parseStates":         rgNonLinear + " (rows of nClasses entries cut from len(states)/nClasses rows)",
+	"(*font/opentype/tables.Gvar).parseGlyphVariationDatas":        rgSibling + " (the offsets come from ParseLoca(glyphCount): glyphCount+1 entries)",
+	"(*font/opentype/tables.Strike).parseGlyphDatas":               rgSibling + " (the offsets come from ParseLoca(numGlyphs): numGlyphs+1 entries)",
+	"font.parseIndexSubTable1":                                     rgSibling + " (make length: CBLC.parseIndexSubTables asks ParseIndexSubHeader for numGlyphs+1 >= 2 offsets)",
+	"font.parseIndexSubTable3":                                     rgSibling + " (make length: CBLC.parseIndexSubTables asks ParseIndexSubHeader for numGlyphs+1 >= 2 offsets)",
+	"font.parseIndexSubTable2":                                     rgSibling + " (make length: CBLC.parseIndexSubTables rejects LastGlyph < FirstGlyph)",
+	"font/opentype/tables.ParseGlyf":                               rgSibling + " (make length: the documented caller passes the result of ParseLoca, which has numGlyphs+1 >= 1 entries)",
 	"font.newBitmap":                                               rgSibling + " (CBLC.parseIndexSubTables makes IndexSubTables with len(BitmapSizes) entries)",
 	"font.unpackDeltas":                                            "reviewed: out[nbRead] follows the test nbRead+count <= pointNumbersCount made before each run of count values; the offsets 1+2*i and 1+2*count are computed in a byte, with count <= 64 (no wrap)",
 	"font/opentype/tables.parseDeviceTable":                        rgNonLinear + " (count*nbPerUint16 values, filled by chunks of nbPerUint16); src[offset+6:] adds in uint16 and may wrap to a SMALLER offset than the one tested in int: wrong data, no panic",
@@ -84,6 +88,9 @@ var rgenNotClaimedAccess = map[string][]string{
 	"(font/opentype/tables.pairValueRecords).get":              {"ps.data"},
 	"font.newBitmap":                               {"make(font.bitmap)[].subTables", "table.IndexSubTables"},
 	"font.parseGlyphVariationSerializedData":       {""},
+	"font.parseIndexSubTable1":                     {"length of make([]font.bitmapImage)"},
+	"font.parseIndexSubTable2":                     {"length of make([]font.bitmapDataStandalone)"},
+	"font.parseIndexSubTable3":                     {"length of make([]font.bitmapImage)"},
 	"font.parsePointNumbers":                       {""},
 	"font.unpackDeltas":                            {"", "make([]int16)"},
 	"font/cff.ParseCFF2":                           {"src"},
@@ -91,6 +98,7 @@ var rgenNotClaimedAccess = map[string][]string{
 	"font/opentype.WriteTTF":                       {"", "make([]byte)"},
 	"font/opentype.parseDfont":                     {"make([]byte)"},
 	"font/opentype.parseUint32s":                   {"data"},
+	"font/opentype/tables.ParseGlyf":               {"length of make(tables.Glyf)"},
 	"font/opentype/tables.ParseGlyphVariationData": {"src"},
 	"font/opentype/tables.ParseLoca":               {"src"},
 	"font/opentype/tables.parseAATStateEntries":    {"src"},
